@@ -241,6 +241,7 @@ def is_app(t, *names):
 # light type inference on terms (only what the idioms of the package need)
 
 _APP_TY = {
+    ".to_bytes": "bytes", ".scalar_to_bytes": "bytes", "int2be": "bytes", ".derive": "bytes", ".digest": "bytes",
     "H": "bytes", "hexb": "bytes", "hexs": "str", "cat": "bytes", "rev": None,
     "be2int": "int", "len": "int", "json.dumps": "str", "bit_length": "int",
     "Add": None, "Mod": "int", "pow": "int", "str": "str", "int": "int",
@@ -341,6 +342,18 @@ def mk_app(f, args=(), kw=()):
                 return App("hexw", (val, wd.args[0] if wd.args[1] == Const(2) else wd.args[1]))
             if isinstance(wd, Const) and isinstance(wd.v, int) and wd.v % 2 == 0:
                 return App("hexw", (val, Const(wd.v // 2)))
+        if f == "Mod" and isinstance(a, Const) and isinstance(a.v, bytes) and b"%" in a.v:
+            # b"...%s..." % (x, y): only %s conversions of byte-string arguments -> concatenation
+            parts = a.v.split(b"%s")
+            vals = list(b.items) if isinstance(b, TupleV) and b.kind == "tuple" else [b]
+            if len(parts) == len(vals) + 1 and all(b"%" not in p_ for p_ in parts) and all(ty_of(v) == "bytes" for v in vals):
+                seq = []
+                for i, p_ in enumerate(parts):
+                    if p_:
+                        seq.append(Const(p_))
+                    if i < len(vals):
+                        seq.append(vals[i])
+                return mk_app("cat", tuple(seq))
         if f == "Mod" and (ty_of(a) in ("str", "bytes")):
             w = _hex_width(a)
             if w is not None and not isinstance(b, TupleV):
